@@ -132,6 +132,49 @@ CHECKS = {
         "note": TRUSTED + " Dictionary key order is not significant; the compiled regex objects the library adds to "
                           "the table are dropped before comparison.",
     },
+    "C06": {
+        "technique": "TLA+ spec (National: 22 published algorithms on published offsets) + TLC: structured model "
+                     "MC_National replayed into the library, spec-as-generator NatGen for the accept side, trace "
+                     "validation (TraceNational)",
+        "text": "MC_National (22 countries x six spread positions over a reduced value set incl. letters; body as is / "
+                "repaired / every single corruption): exactly the prescribed digits validate, repair touches only "
+                "the check digits, corruption is detected. All model bodies and 120 / 6,000 random conforming BBANs "
+                "per country are given reference-computed digits by TLC (NatGen) and replayed with random digits, "
+                "reference digits and single corruptions through IBAN(validate_bban=True), validate(True) and "
+                "BBAN.validate_national_checksum (must return True / raise); all other countries with the flag on "
+                "must be unaffected; flagged acceptance implies unflagged acceptance.",
+        "design_ref": "DESIGN.md section 5, C06 and Appendix B",
+        "note": TRUSTED + " The transcription of the published national algorithms is from knowledge of the published "
+                          "texts (no copy offline); Norwegian accounts with 00 at digits 5-6 are not judged.",
+    },
+    "C07": {
+        "technique": "TLA+ spec (Bundesbank: 39 published methods, dispatch over the Load-composed registry) + TLC: "
+                     "MC_Bundesbank states replayed into algorithms['DE:xx'], trace validation (TraceNational) of "
+                     "random / boundary accounts and of German bank codes through the public IBAN API",
+        "text": "MC_Bundesbank: 39 methods x all accounts over {0,9} ({0,3,9} thorough) at ten positions, with "
+                "transcription sanity invariants (single-check-digit methods accept at most / exactly one digit); "
+                "every state is replayed into the method object. Plus per method 60 / 4,000 random accounts x all ten "
+                "check-digit values, boundary families (08: 59,980..60,020; 99 and 68 ranges; every leading digit of "
+                "24/25/26/61/63/76/88), the 70 official test numbers (checked against the SPEC first), and 600 / "
+                "all 3,527 German bank codes x accounts through IBAN(validate_bban=True) with dispatch (unlisted "
+                "bank, unimplemented method => accept) decided by the spec over the frozen registry.",
+        "design_ref": "DESIGN.md section 5, C07 and Appendix A",
+        "note": TRUSTED + " Optional second passes of methods 13/63/76 and remainder 10 of method 76 are not judged.",
+    },
+    "C17": {
+        "technique": "TLA+ spec (DataCheck over the Load-composed registries, Structure, Bic, Lookup) + TLC: one step "
+                     "per data entry with total verdicts; trace validation of the follow-through (IBAN around every "
+                     "listed bank accepted, bank found again)",
+        "text": "Exhaustive over the data of the tree under test: each of the 126 country entries (structure string "
+                "describes the BBAN length, IBAN length = +4 <= 34, positions inside and disjoint) and each of the "
+                "29,451 bank entries (country in table, BIC empty or valid and clean, bank code empty or fitting "
+                "width and classes of the concatenated bank-identifying fields) is judged by TLC; every failing "
+                "entry is reported by country / bank key. Then for 3,000 / all listed bank keys a valid IBAN is "
+                "built around the key: the library must accept it (TraceCalls) and find the bank again "
+                "(TraceLookup).",
+        "design_ref": "DESIGN.md section 5, C17",
+        "note": TRUSTED + " Which fields a national algorithm needs comes from spec/National.tla (NatNeeds).",
+    },
 }
 
 NOT_YET = {
